@@ -12,8 +12,8 @@ META = {
                  "generated model; round-trip oracle on models read from generated texts over every syntax form",
     "level_text": "Theorems of coq/Props/C25.v: for every model in the fragment `rt_ok` (all atoms, sequences, parenthesised, "
                   "sugared and dotted expressions, bracket strings, f-strings with conversions and nested format specs to "
-                  "any depth), hy.repr's text is read back as (quote m) and printing is stable; each class outside the "
-                  "fragment that the reader can produce is refuted by a witness that the run replays on the real code.",
+                  "any depth; bracket f-strings excepted), hy.repr's text is read back as (quote m) and printing is stable; "
+                  "each defect class outside the fragment is refuted by a witness that the run replays on the real code.",
     "level_note": "Trusted: Coq kernel; oracle hypotheses num_facts; translator/print_tables.py; hand-written printer and "
                   "reader models tied by differential execution on every generated case; evaluation of a quoted model "
                   "back to the model (C30's subject) is observed by the oracle, not modelled.",
@@ -87,9 +87,11 @@ def diagnose(m, raw_ctx=None, out=None):
         raw = m.brackets is not None
         if raw and len(m) and type(m[0]) is M.String and str(m[0]).startswith("\n"):
             out.add("bracket-leading-newline")
-        for c in m:
+        for i, c in enumerate(m):
             if type(c) is M.String:
-                if not raw and "\\N{" in str(c):
+                if raw and "\r" in str(c):
+                    out.add("bracket-fstring-carriage-return")
+                if not raw and ("\\N{" in str(c) or (str(c).endswith("\\N") and i + 1 < len(m))):
                     out.add("fstring-named-escape-text")
             else:
                 diagnose(c, raw, out)
@@ -101,6 +103,8 @@ def diagnose(m, raw_ctx=None, out=None):
             s = str(m[1])
             if "{" in s or "}" in s or (not raw_ctx and ("\\" in s or "\r" in s)):
                 out.add("fcomponent-spec-text-unescaped")
+            if raw_ctx and "\r" in s:
+                out.add("bracket-fstring-carriage-return")
         if len(m) and type(m[0]) is M.Dict:
             out.add("fcomponent-form-starts-with-brace")
         for c in m:
@@ -131,10 +135,14 @@ def repair(m, raw_ctx=None):
         for i, c in enumerate(m):
             if type(c) is M.String:
                 s = str(c)
+                if raw:
+                    s = s.replace("\r", "")
                 if raw and i == 0:
                     s = s.lstrip("\n")
                 if not raw:
                     s = s.replace("\\N{", "\\N(")
+                    if s.endswith("\\N") and i + 1 < len(m):
+                        s += "_"
                 if s:
                     comps.append(M.String(s))
             else:
@@ -146,8 +154,9 @@ def repair(m, raw_ctx=None):
             items[0] = M.Symbol("d")
         if len(items) > 1 and type(items[1]) is M.String:
             s = str(items[1]).replace("{", "").replace("}", "")
+            s = s.replace("\r", "")
             if not raw_ctx:
-                s = s.replace("\\", "").replace("\r", "")
+                s = s.replace("\\", "")
             items = items[:1] + ([M.String(s)] if s else [])
         return M.FComponent(items, conversion=m.conversion, expression=m.expression, is_tstring=m.is_tstring)
     if t is M.Expression and dotted_defect(m):
@@ -159,7 +168,7 @@ def repair(m, raw_ctx=None):
     return m
 
 
-CLASSES = ["bracket-leading-newline", "dotted-form-parts", "fcomponent-form-starts-with-brace",
+CLASSES = ["bracket-fstring-carriage-return", "bracket-leading-newline", "dotted-form-parts", "fcomponent-form-starts-with-brace",
            "fcomponent-spec-rest-dropped", "fcomponent-spec-text-unescaped", "fstring-named-escape-text",
            "unquote-dotted-at"]
 
@@ -218,7 +227,7 @@ FIXED_TEXTS = ['f"{a :>{w}}"', "#[[\n\nx]]", 'f"{ {1 2}}"', "(. a ... b)", "(. +
                'f"{a :{{}"', 'f"{a :\\r}"', "(unquote @a)", "~@a", "#* x", "(. None a b)", "..a.b", "a.b.c", 'f"{x = }"',
                'f"{x !r :>5}"', 't"a{x}b"', "#[f[a{x}b]f]", "{1 2 3}", ":a", ":", "''a", "`(a ~b ~@c)", "#^ int x",
                'b"a\\xff"', '"a\\"b\'"', 'f"a{{b}}\\"c"', '#[x[a"b]x]', 'f"{a ! }"', "1e5", "NaN", "-Inf", "1+2j", "NaNj",
-               'f"{"a"}"', 'f"{f"{x}"}"', "#{}", "#()", "()", 'f""', "(quote a b)", "(quote)", "(. a)", "[a . b]", "(unquote @a.b)", "~ @a.b", "(unquote @.b)",
+               'f"{"a"}"', 'f"{f"{x}"}"', "#{}", "#()", "()", 'f""', "(quote a b)", "(quote)", "(. a)", "[a . b]", "(unquote @a.b)", "~ @a.b", "(unquote @.b)", "#[f[{a\r= }]f]",
                '"\\N{BULLET}\\x00\\ud800"', "#[==[]=]==]"]
 
 
@@ -236,7 +245,7 @@ def run(chk):
     chk.prove("Props/C25.v", ["Props/C25.vo", "Print/Ser.vo", "Print/GenChecks.vo"], [print_tables.translate])
     thorough = chk.tier == "thorough"
     hy = pc.hy_mod()
-    n = 20000 if thorough else 600
+    n = 20000 if thorough else 900
     chk.rule = ("models = hy.read of fixed texts (incl. the refutation witnesses) and of seeded grammar-directed texts over every "
                 "syntax form (symbols incl. odd ones, keywords, number notations, strings/bytes with every escape, bracket "
                 "strings, f/t-strings with debug =, conversions, nested specs, brace escapes, named escapes, bracket f-strings, "
